@@ -5,6 +5,7 @@ import Propka.Model.ParamsDriver
 import Propka.Model.PdbDriver
 import Propka.Model.GroupsDriver
 import Propka.Model.HiddenDriver
+import Propka.Model.ProfilesDriver
 /-! Line-protocol driver: one request per line `<module> <args…>`, one response line each. -/
 open Propka
 
@@ -17,6 +18,7 @@ def dispatch (ws : List String) : String :=
   | "pdb" :: r => Pdb.handle r
   | "groups" :: r => Groups.handle r
   | "hidden" :: r => Hidden.handle r
+  | "prof" :: r => Profiles.handle r
   | ["ping"] => "pong"
   | _ => "bad-op"
 
